@@ -5,6 +5,8 @@
 package rruntime
 
 import (
+	"github.com/siderolabs/gen/optional"
+
 	"github.com/cosi-project/runtime/pkg/controller"
 	"github.com/cosi-project/runtime/pkg/controller/runtime/internal/reduced"
 	"github.com/cosi-project/runtime/pkg/controller/runtime/metrics"
@@ -12,11 +14,13 @@ import (
 )
 
 type watchKey struct {
+	ID        optional.Optional[resource.ID]
 	Namespace resource.Namespace
 	Type      resource.Type
 }
 
-func (adapter *Adapter) addWatchFilter(resourceNamespace resource.Namespace, resourceType resource.Type, filter reduced.WatchFilter) {
+// addWatchFilter registers the filter (which might be nil for unfiltered inputs) for the input.
+func (adapter *Adapter) addWatchFilter(input controller.Input, filter reduced.WatchFilter) {
 	adapter.watchFilterMu.Lock()
 	defer adapter.watchFilterMu.Unlock()
 
@@ -24,14 +28,14 @@ func (adapter *Adapter) addWatchFilter(resourceNamespace resource.Namespace, res
 		adapter.watchFilters = make(map[watchKey]reduced.WatchFilter)
 	}
 
-	adapter.watchFilters[watchKey{resourceNamespace, resourceType}] = filter
+	adapter.watchFilters[watchKey{Namespace: input.Namespace, Type: input.Type, ID: input.ID}] = filter
 }
 
-func (adapter *Adapter) deleteWatchFilter(resourceNamespace resource.Namespace, resourceType resource.Type) {
+func (adapter *Adapter) deleteWatchFilter(input controller.Input) {
 	adapter.watchFilterMu.Lock()
 	defer adapter.watchFilterMu.Unlock()
 
-	delete(adapter.watchFilters, watchKey{resourceNamespace, resourceType})
+	delete(adapter.watchFilters, watchKey{Namespace: input.Namespace, Type: input.Type, ID: input.ID})
 }
 
 // WatchTrigger is called by common controller runtime when there is a change in the watched resources.
@@ -39,9 +43,16 @@ func (adapter *Adapter) WatchTrigger(md *reduced.Metadata) {
 	adapter.watchFilterMu.Lock()
 	defer adapter.watchFilterMu.Unlock()
 
-	if adapter.watchFilters != nil {
-		if filter := adapter.watchFilters[watchKey{md.Namespace, md.Typ}]; filter != nil && !filter(md) {
-			// skip reconcile if the event doesn't match the filter
+	// the event might match the input by kind and/or the input by ID, each of them has its own filter,
+	// skip reconcile only if every matching input filters the event out
+	kindFilter, kindMatched := adapter.watchFilters[watchKey{Namespace: md.Namespace, Type: md.Typ}]
+	idFilter, idMatched := adapter.watchFilters[watchKey{Namespace: md.Namespace, Type: md.Typ, ID: optional.Some(md.ID)}]
+
+	if kindMatched || idMatched {
+		kindPassed := kindMatched && (kindFilter == nil || kindFilter(md))
+		idPassed := idMatched && (idFilter == nil || idFilter(md))
+
+		if !kindPassed && !idPassed {
 			return
 		}
 	}
